@@ -871,14 +871,10 @@ class Variogram(object):
 
     @bins.setter
     def bins(self, bins):
-        # set the new bins
-        self._bins = np.asarray(bins)
-
-        # clean the groups as they are not valid anymore
-        self._bin_count = None
-        self._groups = None
-        self.cov = None
-        self.cof = None
+        # user-defined edges are handled like edges passed as bin_func: this
+        # also adopts their number as n_lags and their maximum as maxlag and
+        # resets groups, bin count and the fit
+        self.set_bin_func(np.asarray(bins))
 
     @property
     def n_lags(self):
